@@ -902,8 +902,50 @@ def gen_b58_wif(ctx):
         ctx.run("wif_decode", [s, b"\x80"], "short")
 
 
+# ---- SS58 and Monero block-Base58 decoders (models and theorems of property C11: ss58_accepts_iff,
+#      xmr_decode_accepts_iff); here the decoders' acceptance is compared on C10's neighbourhood streams
+from props import C11 as _c11
+for _k in ("ss58_encode", "ss58_decode", "xmr_encode", "xmr_decode"):
+    FUNCS[_k] = _c11.FUNCS[_k]
+
+
+def gen_ss58_xmr(ctx):
+    rng = ctx.rng
+    fixed = bytes(range(32))
+    fmts = sorted(set([0, 1, 45, 48, 62, 63, 64, 65, 127, 128, 255, 256, 257, 1284, 4095, 4096, 8191, 8192, 8193, 8234,
+                       12288, 16382, 16383] + [rng.randrange(16384) for _ in range(ctx.n(120, 3000))]) - {46, 47})
+    for fmt in fmts:
+        s = _c11.ss58_ref(fixed, fmt)
+        ctx.run("ss58_decode", [s], "formats")
+        t = list(s)
+        t[rng.randrange(len(t))] = rng.choice(_c11.B58)
+        ctx.run("ss58_decode", ["".join(t)], "substituted")
+    for b0 in range(256):
+        ctx.run("ss58_decode", [_c11.ss58_raw(bytes([b0]) + fixed)], "firstbyte")
+        ctx.run("ss58_decode", [_c11.ss58_raw(bytes([b0, rng.randrange(256)]) + fixed)], "firstbyte")
+    for raw in (b"", b"\x00", b"\x40", b"\x80", b"\x40\x00"):
+        ctx.run("ss58_decode", [_c11.ss58_raw(raw)], "short")
+    for _ in range(ctx.n(150, 3000)):
+        b = bytes(rng.randrange(256) for _ in range(rng.choice([1, 5, 8, 9, 16, 69, 77])))
+        from bip_utils import Base58XmrEncoder
+        s = Base58XmrEncoder.Encode(b)
+        ctx.run("xmr_decode", [s], "valid")
+        t = list(s)
+        k = rng.randrange(4)
+        if k == 0:
+            t[rng.randrange(len(t))] = rng.choice(_c11.B58)
+        elif k == 1:
+            t[rng.randrange(len(t))] = "z"
+        elif k == 2:
+            del t[rng.randrange(len(t))]
+        else:
+            t.insert(rng.randrange(len(t) + 1), rng.choice(_c11.B58))
+        ctx.run("xmr_decode", ["".join(t)], "mutated")
+
+
 def generate(ctx):
     import time
+    gen_ss58_xmr(ctx)
     parts = [(gen_convert_bits, 0.08), (gen_polymod, 0.05), (gen_bech32, 0.27), (gen_segwit, 0.22), (gen_cash, 0.18),
              (gen_b58_wif, 0.08), (gen_strings, 0.12)]
     total = ctx.budget_s
